@@ -81,6 +81,10 @@ func VerifC15IndexBuild() {
 		files[mod.Name] = f
 		idxWriters[mod.Name] = index.NewWriter(f)
 	}
+	if sym.Param("FAULTS", 0) == 1 {
+		// the object store fails the first write attempts after having read the content
+		mem.FailNextWrites(sym.Choice("failed-writes", 3))
+	}
 	eng, err := NewEngine(context.Background(), writers, "sf.test.Block", nil, idxWriters)
 	if err != nil {
 		sym.Unreachable("engine-ok")
